@@ -443,7 +443,7 @@ pub fn main(ctx: &Ctx) {
     ctx.assume("power loss is judged for the policies that fsync every write (Always, Periodic(0)); Never and Periodic(1 h) are judged under process kill only (the property promises nothing more for them)");
     ctx.assume("crash points before the initial creation of the database has completed are not explored");
     run_committed_replays(ctx, &C01);
-    run_pbt(ctx, &C01, ctx.tier.pick(480, 12_000));
+    run_pbt(ctx, &C01, ctx.tier.pick(3_000, 40_000));
 }
 
 pub fn replay(ctx: &Ctx, v: &serde_json::Value) -> Option<i32> {
